@@ -14,15 +14,19 @@ MANIFEST = dict(
     technique='Lean 4 proof (SSE grammar round trip by induction over events/lines/characters; decision-table case analysis; fold lemmas) + differential correspondence run with a scripted HTTP transport + independent property oracle',
     design='5/C11',
 )
-GEN = ["HttpParams"]
+GEN: list = []
+SUPP_GEN = ["HttpParams"]
 THEOREMS = [
     "c11_parse_render", "c11_exactly_one_terminal", "c11_failure_only_synthesised", "c11_success_passthrough",
     "c11_json_body_messages", "c11_sse_body_messages", "c11_no_id_for_notification", "c11_failures_independent",
-    "c11_every_request_processed", "c11_session_header_latest", "c11_close",
+    "c11_every_request_processed", "c11_session_header_latest", "c11_repeated_failures",
+]
+# not stated by the property text (Props/C11Supp.lean): reported as INFO, never a verdict
+SUPP_THEOREMS = [
+    "c11_options_irrelevant", "c11_instances_independent", "c11_close",
     "c11_post_protocol_headers", "c11_post_session_header", "c11_post_authorization", "c11_params_auth_headers",
-    "c11_post_custom_headers", "c11_params_translated", "c11_params_accept_iff", "c11_params_url_normalised",
+    "c11_post_custom_headers", "c11_params_accept_iff", "c11_params_url_normalised",
     "c11_stream_chunk_independent", "c11_stream_plain_encodings",
-    "c11_options_irrelevant", "c11_repeated_failures", "c11_instances_independent",
 ]
 RULE = (
     "behaviours: every cell of {200,202,204,301,404,500} x {application/json, text/event-stream, text/plain, absent} x "
@@ -364,10 +368,9 @@ class Headers(Suite):
     note (INFO) and is not by itself a broken correspondence of the property; the session-header part
     of the property is judged by the oracle of the main suites."""
     name = "headers"
+    supplementary = True
 
     def cases(self, ctx, budget):
-        self._ctx = ctx
-        self._info = 0
         rng = ctx.sub_rng("c11-headers", budget)
         out = []
         for hd in HEADER_DICTS:
@@ -418,30 +421,22 @@ class Headers(Suite):
                 "env": c["env"], "sessions": sessions}
 
     def compare(self, c, o, m):
-        diff = None
         if o.get("crash") or "driver_error" in m:
-            diff = "crash / driver error"
-        elif o["cfg"] != m["cfg"]:
-            diff = f"configured headers {o['cfg']} vs model {m['cfg']}"
-        elif len(o["wire"]) != len(m["posts"]):
-            diff = "number of POSTs"
-        else:
-            for k, (wire, post) in enumerate(zip(o["wire"], m["posts"])):
-                names = {a.lower() for a, _ in post}
-                for n in names:
-                    want = [v for a, v in post if a.lower() == n]
-                    got = [v for a, v in wire if a.lower() == n]
-                    if want != got:
-                        diff = f"POST {k} header {n}: sent {got}, model {want}"
-                extra = {a.lower() for a, _ in wire} - names - HTTPX_OWN
-                if extra:
-                    diff = f"POST {k} carries headers the model does not build: {sorted(extra)}"
-        if diff is not None:
-            self._info += 1
-            if self._info <= 3:
-                self._ctx.notes.append(f"INFO (supplementary, not a property violation) header construction differs from HttpHeaders: {diff}; case {canon(c)[:300]}")
-            if self._info == 1:
-                print(f"INFO property=C11 supplementary=header-construction differs from the model (no property violation by itself): {diff}"[:300])
+            return "crash / driver error"
+        if o["cfg"] != m["cfg"]:
+            return f"configured headers {o['cfg']} vs model {m['cfg']}"
+        if len(o["wire"]) != len(m["posts"]):
+            return "number of POSTs"
+        for k, (wire, post) in enumerate(zip(o["wire"], m["posts"])):
+            names = {a.lower() for a, _ in post}
+            for n in sorted(names):
+                want = [v for a, v in post if a.lower() == n]
+                got = [v for a, v in wire if a.lower() == n]
+                if want != got:
+                    return f"POST {k} header {n}: sent {got}, model {want}"
+            extra = {a.lower() for a, _ in wire} - names - HTTPX_OWN
+            if extra:
+                return f"POST {k} carries headers the model does not build: {sorted(extra)}"
         return None
 
     def kind(self, c, o):
@@ -452,13 +447,12 @@ class Params(Suite):
     """the field validators of StreamableHTTPParameters against the REGENERATED Gen/HttpParams predicates
     (translation validation).  Supplementary: divergences are notes."""
     name = "params"
+    supplementary = True
     URLS = ["", "http://", "https://x", "http://x/", "https://x///", "ftp://x", "HTTP://x", " http://x", "httpx://y", "http:/x", "https:/",
             "//x", "http://x/mcp/ ", "https://h\u00e9/mcp/", "/", "h", "https://", "http://a//b//"]
     NUMS = [-1024, -1, 0, 1, 512, 1024, 61440, 10 ** 12]     # in 1/1024 units for the float fields
 
     def cases(self, ctx, budget):
-        self._ctx = ctx
-        self._info = 0
         out = []
         for u in self.URLS:
             out.append({"url": u, "timeout": 1024, "max_retries": 3, "retry_delay": 1024, "mcr": 10})
@@ -490,19 +484,14 @@ class Params(Suite):
         return dict(c, m="http", op="params")
 
     def compare(self, c, o, m):
+        if "driver_error" in m:
+            return "driver error"
         fields = ["url", "timeout", "max_retries", "retry_delay", "max_concurrent_requests"]
         want_bad = sorted(f for f in fields if not m.get(f, True))
-        diff = None
         if want_bad != o["bad"]:
-            diff = f"rejected fields {o['bad']} vs regenerated validators {want_bad}"
-        elif o["ok"] and o["url_stored"] != m["url_stored"]:
-            diff = f"stored url {o['url_stored']!r} vs {m['url_stored']!r}"
-        if diff is not None:
-            self._info += 1
-            if self._info <= 3:
-                self._ctx.notes.append(f"INFO (supplementary) parameter validation differs from Gen/HttpParams: {diff}; case {canon(c)[:200]}")
-            if self._info == 1:
-                print(f"INFO property=C11 supplementary=parameter-validation differs from the regenerated validators: {diff}"[:300])
+            return f"rejected fields {o['bad']} vs regenerated validators {want_bad}"
+        if o["ok"] and o["url_stored"] != m["url_stored"]:
+            return f"stored url {o['url_stored']!r} vs {m['url_stored']!r}"
         return None
 
     def kind(self, c, o):
@@ -514,10 +503,9 @@ class StreamBranch(Suite):
     with the pre-repair grammar) driven directly with a response stub, against SseStream.parseStream:
     every chunking of plain and of conformant-but-not-plain bodies.  Supplementary: divergences are notes."""
     name = "stream-branch"
+    supplementary = True
 
     def cases(self, ctx, budget):
-        self._ctx = ctx
-        self._info = 0
         rng = ctx.sub_rng("c11-stream", budget)
         texts = []
         k = 0
@@ -556,10 +544,9 @@ class StreamBranch(Suite):
 
     def compare(self, c, o, m):
         if "skipped" in o:
-            if not self._info:
-                self._ctx.notes.append(f"INFO stream-branch cases skipped: {o['skipped']}")
-            self._info += 1
             return None
+        if "driver_error" in m:
+            return "driver error"
         want = []
         for x in m.get("outs", []):
             p_ = x["pass"]
@@ -568,15 +555,10 @@ class StreamBranch(Suite):
         if c.get("fail"):
             # the handler of the branch routes one error carrying the request's id after what was dispatched
             if not (got and got[-1]["kind"] in TERMINAL and got[-1]["id"] == {"i": 7}):
-                want = None
-            else:
-                got = got[:-1]
-        if want is None or canon(H._norm(got)) != canon(H._norm(want)):
-            self._info += 1
-            if self._info <= 3:
-                self._ctx.notes.append(f"INFO (supplementary) streaming branch differs from SseStream.parseStream: chunks {canon(c)[:200]}")
-            if self._info == 1:
-                print(f"INFO property=C11 supplementary=stream-branch differs from the model: chunks {canon(c)[:200]}")
+                return "no terminal for the request after the stream broke off"
+            got = got[:-1]
+        if canon(H._norm(got)) != canon(H._norm(want)):
+            return "streaming branch differs from SseStream.parseStream"
         return None
 
     def kind(self, c, o):
